@@ -24,32 +24,51 @@ theorem C37_all : ∀ cfg ∈ configTable, connect cfg = .ok := by
 theorem C37_table_size : configTable.length = 142 := by
   decide +kernel
 
+/-- the policy index means the same policy in both generated tables -/
+theorem C37_index_aligned :
+    Gen.interopPolicies.map (·.name) = Gen.asymRows.map (·.name) ∧
+    Gen.interopPolicies.map (·.isNone) = Gen.asymRows.map (fun r => decide (r.scheme = .none)) := by
+  decide +kernel
+
 /-- The table is complete: for every supported policy with a Part 7 key range,
     every mode, every pair of committed key sizes and every token type, the row
     is in the table iff the mode has a security level for that policy and both
     keys are within the Part 7 range (Boolean form, evaluated by the kernel). -/
 theorem C37_table_complete :
-    (Gen.interopPolicies.all fun p => [1, 2, 3].all fun m => keySizes.all fun cb => keySizes.all fun sb =>
-      [Auth.anonymous, Auth.username].all fun a =>
-        !(Spec.keyBits p.name).isSome ||
-        (decide ((⟨p.name, m, cb, sb, a⟩ : Config) ∈ configTable) ==
-          (decide (m ∈ p.modes) && keyAllowed p.name cb && keyAllowed p.name sb))) = true := by
+    ((enumFrom 0 Gen.interopPolicies).all fun (i, p) =>
+      match Spec.keyBits p.name with
+      | none => true
+      | some r =>
+        [1, 2, 3].all fun m => keySizes.all fun cb => keySizes.all fun sb =>
+          [Auth.anonymous, Auth.username].all fun a =>
+            (configTable.contains (⟨i, m, cb, sb, a⟩ : Config)) ==
+              (p.modes.contains m && inRange r cb && inRange r sb)) = true := by
   decide +kernel
 
-/-- no row of the table uses a key outside the Part 7 range, an unsupported
-    policy, or a mode without a security level -/
-theorem C37_table_sound : ∀ cfg ∈ configTable,
-    (∃ p ∈ Gen.interopPolicies, p.name = cfg.pol ∧ cfg.mode ∈ p.modes) ∧
-    (cfg.mode ≠ 1 → keyAllowed cfg.pol cfg.cbits = true ∧ keyAllowed cfg.pol cfg.sbits = true) := by
+/-- no row of the table uses an unsupported policy, a mode without a security
+    level, or (on a secured channel) a key outside the Part 7 range -/
+theorem C37_table_sound :
+    (configTable.all fun cfg =>
+      match policyInfo cfg.pol with
+      | none => false
+      | some p => p.modes.contains cfg.mode &&
+          (cfg.mode == 1 || (keyAllowed p.name cfg.cbits && keyAllowed p.name cfg.sbits))) = true := by
   decide +kernel
 
-/-- what a server enabling one secured (policy, mode) with both token types
-    advertises: the anonymous token under policy None and the username token
-    under the endpoint's own policy; a server enabling only None advertises no
-    username token -/
-theorem C37_tokens : ∀ p ∈ Gen.interopPolicies, ∀ m ∈ p.modes,
-    (serverEndpoints [(p.name, m)] [.anonymous, .username]).map (fun e => (e.pol, e.mode, e.tokens.map (·.policyID))) =
-      [(p.name, m, if p.name = "None" then ["anonymous_none"] else ["anonymous_none", lower ("username_" ++ p.name)])] := by
+/-- what a server enabling one (policy, mode) with both token types advertises:
+    the anonymous token under policy None, and — unless the policy is None —
+    the username token under the endpoint's own policy -/
+theorem C37_tokens :
+    ((enumFrom 0 Gen.interopPolicies).all fun (i, p) => p.modes.all fun m =>
+      serverEndpoints [(i, m)] [.anonymous, .username] ==
+        [⟨i, m, if p.isNone then [⟨.anonymous, none⟩] else [⟨.anonymous, none⟩, ⟨.username, some i⟩]⟩]) = true := by
+  decide +kernel
+
+/-- the PolicyID strings the Go code compares are pairwise distinct for the
+    tokens a server can advertise, so comparing (type, policy) is the same -/
+theorem C37_policy_ids_distinct :
+    let toks : List Token := [⟨.anonymous, none⟩] ++ (List.range Gen.interopPolicies.length).map (fun i => ⟨.username, some i⟩)
+    (toks.map policyIDString).Nodup := by
   decide +kernel
 
 /-- the OPN request is one chunk for ANY certificate: for every server key size
@@ -67,11 +86,11 @@ theorem C37_opn_fits_any_cert (H n sigLen : Int) (hH : 0 ≤ H) (hH2 : H ≤ 400
     simp [asymSecure] at hpos ⊢ <;> go_divmod <;> (try split) <;> go_divmod <;> omega
 
 /-- non-vacuity: the largest configuration -/
-example : connect ⟨"Aes256_Sha256_RsaPss", 3, 4096, 4096, .username⟩ = .ok ∧
-    opnRequest ⟨"Aes256_Sha256_RsaPss", 3, 4096, 4096, .username⟩ = some ⟨2494, 2494⟩ := by
+example : polName 1 = "Aes256_Sha256_RsaPss" ∧ connect ⟨1, 3, 4096, 4096, .username⟩ = .ok ∧
+    (opnRequest ⟨1, 3, 4096, 4096, .username⟩).isSome = true := by
   decide +kernel
 
 /-- a key outside the range is refused by the model as well -/
-example : connect ⟨"Basic256", 3, 4096, 2048, .anonymous⟩ = .clientRefusesKeys := by decide +kernel
+example : polName 3 = "Basic256" ∧ connect ⟨3, 3, 4096, 2048, .anonymous⟩ = .clientRefusesKeys := by decide +kernel
 
 end Opcua.Props.C37
